@@ -1,7 +1,7 @@
 """Build programs (BP): a JSON DSL executed only through the public API of the library, in lock step with the
 reference model (``qv.model``).
 
-    circuit := {"reps": n | {"reg": key}, "steps": [step, ...]}
+    circuit := {"reps": n | {"reg": key}, "steps": [step, ...], "nq": declared register size (optional)}
     step    := {"k": Kind, "q": [qubits], "dur": null | number | {"reg": key} | {"glob": KEY},
                 "chan": null | CHANNEL, "tag": str, "f": {extra int fields}, "rel": null | [TYPE, ref_index],
                 "reg_of": ancestor depth whose acquisition registry a measurement uses (0 = own circuit)}
@@ -244,7 +244,8 @@ def _add_step(built: Built, level: Level, stack: List[Level], i: int, step: Dict
 
 def _build_level(bp: Dict[str, Any], built: Built, stack: List[Level], path: Tuple[int, ...]) -> Level:
     from qce_circuit.language.declarative_circuit import DeclarativeCircuit
-    circuit = DeclarativeCircuit(repetition_strategy=_repetition_strategy(bp.get("reps", 1), built.ctx))
+    kwargs = {"nr_qubits": int(bp["nq"])} if bp.get("nq") else {}      # declared register size: informative only, nothing enforces it
+    circuit = DeclarativeCircuit(repetition_strategy=_repetition_strategy(bp.get("reps", 1), built.ctx), **kwargs)
     level = Level(bp, circuit, path)
     stack = stack + [level]
     for i, step in enumerate(bp["steps"]):
@@ -256,8 +257,10 @@ def start(program: Dict[str, Any], ctx: Optional[Ctx] = None) -> Built:
     """Begin an incremental build: an empty top-level circuit; steps are added with :func:`add_step`."""
     ctx = ctx or Ctx(program.get("settings"))
     built = Built(program, ctx, None)  # type: ignore
-    built.top = _build_level({"reps": program["circuit"].get("reps", 1), "steps": []}, built, [], ())
-    built.top.bp = {"reps": program["circuit"].get("reps", 1), "steps": []}
+    head = {k: v for k, v in program["circuit"].items() if k != "steps"}
+    head.setdefault("reps", 1)
+    built.top = _build_level(dict(head, steps=[]), built, [], ())
+    built.top.bp = dict(head, steps=[])
     return built
 
 
